@@ -816,10 +816,12 @@ func init() {
 		giveupFresh.GiveUps = 1
 		if tier == "quick" {
 			p.BudgetS = 600
-			p.Runs = []Run{schedRun("same-key-2-caller-gives-up-b2", 2, giveup2, 0), schedRun("fresh-key-2-caller-gives-up-b2", 2, giveupFresh, 0), schedRun("patch-vs-syncs-b2", 2, patchSync, 0), schedRun("connect-vs-syncs-b2", 2, connectSync, 0), schedRun("same-key-2-b3", 3, same2, 0), schedRun("different-keys-2-b2", 2, diff2, 0), schedRun("two-keys-crossed-order-b2", 2, crossed2, 0), schedRun("fresh-key-2-b3", 3, fresh, 0), schedRun("same-key-3-b2", 2, same3, 0)}
+			p.Runs = []Run{{Name: "one-request-held-70-other-keys-served", Check: "C12", Kind: "lockbuckets", Cases: true, Params: map[string]interface{}{}, Shards: 3},
+				schedRun("same-key-2-caller-gives-up-b2", 2, giveup2, 0), schedRun("fresh-key-2-caller-gives-up-b2", 2, giveupFresh, 0), schedRun("patch-vs-syncs-b2", 2, patchSync, 0), schedRun("connect-vs-syncs-b2", 2, connectSync, 0), schedRun("same-key-2-b3", 3, same2, 0), schedRun("different-keys-2-b2", 2, diff2, 0), schedRun("two-keys-crossed-order-b2", 2, crossed2, 0), schedRun("fresh-key-2-b3", 3, fresh, 0), schedRun("same-key-3-b2", 2, same3, 0)}
 		} else {
 			p.BudgetS = 3400
-			p.Runs = []Run{schedRun("same-key-2-caller-gives-up-b3", 3, giveup2, 0), schedRun("fresh-key-2-caller-gives-up-b3", 3, giveupFresh, 0), schedRun("patch-vs-syncs-b3", 3, patchSync, 0), schedRun("connect-vs-syncs-b3", 3, connectSync, 0), schedRun("same-key-2-b4", 4, same2, 0), schedRun("different-keys-2-b3", 3, diff2, 0), schedRun("two-keys-crossed-order-b3", 3, crossed2, 0), schedRun("fresh-key-2-b4", 4, fresh, 0), schedRun("same-key-3-b3", 3, same3, 0)}
+			p.Runs = []Run{{Name: "one-request-held-70-other-keys-served", Check: "C12", Kind: "lockbuckets", Cases: true, Params: map[string]interface{}{}, Shards: 3},
+				schedRun("same-key-2-caller-gives-up-b3", 3, giveup2, 0), schedRun("fresh-key-2-caller-gives-up-b3", 3, giveupFresh, 0), schedRun("patch-vs-syncs-b3", 3, patchSync, 0), schedRun("connect-vs-syncs-b3", 3, connectSync, 0), schedRun("same-key-2-b4", 4, same2, 0), schedRun("different-keys-2-b3", 3, diff2, 0), schedRun("two-keys-crossed-order-b3", 3, crossed2, 0), schedRun("fresh-key-2-b4", 4, fresh, 0), schedRun("same-key-3-b3", 3, same3, 0)}
 		}
 		return p
 	}
